@@ -446,7 +446,7 @@ def run_entry(vu, work, entry, tier, cover=False):
     elif backend in ("z3", "cvc5"):
         cmd += ["--" + backend]
     cmd += entry.get("flags", [])
-    if not cover:
+    if not cover and not vu.get("no_trace"):
         cmd += ["--trace"]
     cmd += ["--json-ui"]
     to = int(os.environ.get("VERIF_TIMEOUT", entry.get("timeout", {"quick": 600, "thorough": 1800}[tier])))
